@@ -3,6 +3,7 @@ import Nanite.Witness.C14
 open Nanite.C14 Nanite.C14W
 #print axioms c14_checkOrder_iff
 #print axioms c14_apply_accepts_iff
+#print axioms c14_apply_any_entry
 #print axioms c14_unknown_rejected
 #print axioms c14_autosort_perm
 #print axioms c14_autosort_checked
